@@ -16,7 +16,7 @@ class Check(differential.DifferentialCheck):
                    'draft; cryptodatahub enums are used as tables of numbers only',
                    'SCSV markers are composed at the end of the cipher-suite list (fallback first); at any position when parsed')
 
-    BLOCKS = {'quick': 100, 'thorough': 1600}
+    BLOCKS = {'quick': 100, 'thorough': 8000}
 
     def generator(self):
         from vmon.gen import tls  # pylint: disable=import-outside-toplevel
